@@ -113,6 +113,12 @@ def fresh_outcome(text):
     return _FRESH_CACHE[text]
 
 
+def _noaddr(s):
+    """object addresses (the lambdified function of a register transform) are not part of an outcome"""
+    import re
+    return re.sub(r" at 0x[0-9a-fA-F]+", "", s)
+
+
 def outcome_here(text):
     """the same summary as fresh_outcome, in this process, WITHOUT clearing the tables"""
     import blackbird
@@ -124,7 +130,7 @@ def outcome_here(text):
             except Exception as e:  # noqa: BLE001
                 d = "dumps-raises " + type(e).__name__
         c = canon.canon_program(r[1])[1]
-        return ["prog", repr(c["ops"]), sorted(r[1].parameters), d, repr(c["vars"]),
+        return ["prog", _noaddr(repr(c["ops"])), sorted(r[1].parameters), d, repr(c["vars"]),
                 repr((c["target"], c["type"]))], r[1]
     return list(canon.classify_exception(r[1])), None
 
@@ -246,6 +252,8 @@ def generic_replay(data):
         return o_history(data["texts"])
     if k == "template_call":
         return o_template_call(data["text"], data["kwargs"], data["subst_text"])
+    if k == "model_oracle":
+        return common.model_oracle(data["text"])
     if k == "include":
         return o_include(data["files"], data["main"], data["inlined"], tuple(data.get("proc_cwds", [None])),
                          data.get("absolute", True))
